@@ -665,7 +665,7 @@ pub fn random_op(rng: &mut Rng, paths: &[String], cwd: &str, uid: &mut u64) -> O
     let p = pick(rng);
     match rng.below(60) {
         0..=4 => Op::MkdirP(p),
-        5 => Op::MkdirM(p, *rng.pick(&[0o700u32, 0o755, 0o511, 0o7777])),
+        5 => Op::MkdirM(p, *rng.pick(&[0o700u32, 0o755, 0o511, 0o7777, 0o40000, 0o40700])),
         6..=8 => Op::Mkfile(p),
         9 => Op::MkfileM(p, *rng.pick(&[0o600u32, 0o444, 0o755])),
         10..=13 => Op::WriteAll(p, random_data(rng, uid)),
@@ -696,7 +696,7 @@ pub fn random_op(rng: &mut Rng, paths: &[String], cwd: &str, uid: &mut u64) -> O
                 dirs: if rng.chance(1, 3) { Some(0o711) } else { None },
                 files: if rng.chance(1, 3) { Some(0o640) } else { None },
                 // (symbolic expressions under follow are judged by C11, where the known finding about them lives)
-                sym: if rng.chance(1, 2) { Some(rng.pick(&["a:a+x", "f:u-w", "d:go=rx", "f:a+r,f:a-wx", "a:go-rwx"]).to_string()) } else { None },
+                sym: if rng.chance(1, 2) { Some(rng.pick(&["a:a+x", "f:u-w", "d:go=rx", "f:a+r,f:a-wx", "a:go-rwx", "a:a-rwx", "d:a-rwx"]).to_string()) } else { None },
                 recurse: *rng.pick(&[None, Some(true), Some(false)]),
                 follow: false,
             },
